@@ -17,6 +17,7 @@ the minimum over all trees (search_outer) / all outer-product-free trees (otherw
 """
 
 import contextlib
+from fractions import Fraction
 import json
 import os
 import signal
@@ -36,7 +37,7 @@ LEVEL_TEXT = (
     "cap-doubling rounds is a valid tree over its subgraph with exactly the recorded legs and score "
     "(dp_sound); after a sweep with cap C every admissible tree of cost <= C is matched or beaten by "
     "the entry of its leaf set (dp_complete_under_cap); hence for every initial cost_cap >= 1, both "
-    "search_outer values and all six objectives (any integer factor) the loop terminates and returns a "
+    "search_outer values and all six objectives (any rational factor num/den, scores scaled by den) the loop terminates and returns a "
     "tree of minimum cost among all (outer-product-free) trees (dp_optimal, dp_optimal_connected), where "
     "cost is the leaf-set definition from the network alone. The model is tied to /repo on every run by "
     "equality of costs against the real optimize_optimal and of the step-cost functions, and the real "
@@ -83,7 +84,12 @@ BUDGET = {"quick": 600, "thorough": 3000}
 
 BASE_OBJS = [("flops", None), ("max", None), ("size", None), ("write", None), ("combo", None),
              ("limit", None)]
-FACTORS = [0, 1, 2, 5, 1000]
+# integer factors and exactly representable (dyadic) fractional ones, as they appear in "combo-{k}"
+FACTORS = [0, 1, 2, 5, 1000, "0.5", "2.5", "64.25", "0.25", "7.75", "256.0"]
+
+
+def frac(factor):
+    return Fraction(64) if factor is None else Fraction(str(factor))
 
 
 def obj_string(kind, factor):
@@ -91,7 +97,13 @@ def obj_string(kind, factor):
 
 
 def obj_json(kind, factor):
-    return {"kind": kind, "factor": 64 if factor is None else factor}
+    """the model takes the factor as num/den and scales every score (and the cap) by den"""
+    f = frac(factor)
+    return {"kind": kind, "factor": f.numerator, "den": f.denominator}
+
+
+def den_of(kind, factor):
+    return frac(factor).denominator if kind in ("combo", "limit") else 1
 
 
 # ----------------------------------------------------------------------------- generator
@@ -191,7 +203,8 @@ def rand_guarded_net(rng, nmin=3, nmax=6, dims=(1, 2, 2, 3, 3, 4, 5, 7)):
 
 
 class Pricer:
-    """Cost of a tree from the network alone (leaf-set definition). An index survives a set S of
+    """Cost of a tree from the network alone (leaf-set definition). For combo/limit with factor p/q
+    the reported cost is the true cost times q (exact integers; minimisation is unaffected). An index survives a set S of
     tensors iff it occurs in S and not all of its appearances (inputs + output) are in S.
     step flops = product of the sizes of the indices surviving either operand; step size = product
     over the indices surviving the union; a step is an outer product iff no index survives both."""
@@ -233,14 +246,20 @@ class Pricer:
 
     def price(self, tree, objs):
         """returns (mask, [cost per objective], has_outer_product)"""
+        specs = []
+        for kind, factor in objs:
+            fr = frac(factor)       # exact rational factor p/q; combo/limit costs are kept scaled by q
+            specs.append((kind, fr.numerator, fr.denominator))
+        return self._price(tree, specs)
+
+    def _price(self, tree, specs):
         if isinstance(tree, int):
-            return 1 << tree, [0] * len(objs), False
-        ml, cl, ol = self.price(tree[0], objs)
-        mr, cr, orr = self.price(tree[1], objs)
+            return 1 << tree, [0] * len(specs), False
+        ml, cl, ol = self._price(tree[0], specs)
+        mr, cr, orr = self._price(tree[1], specs)
         F, S, shared = self.step(ml, mr)
         out = []
-        for (kind, factor), a, b in zip(objs, cl, cr):
-            f = 64 if factor is None else factor
+        for (kind, p_, q_), a, b in zip(specs, cl, cr):
             if kind == "flops":
                 out.append(a + b + F)
             elif kind == "max":
@@ -250,9 +269,9 @@ class Pricer:
             elif kind == "write":
                 out.append(a + b + S)
             elif kind == "combo":
-                out.append(a + b + F + f * S)
+                out.append(a + b + q_ * F + p_ * S)
             else:
-                out.append(a + b + max(F, f * S))
+                out.append(a + b + max(q_ * F, p_ * S))
         return ml | mr, out, ol or orr or not shared
 
 
@@ -264,8 +283,9 @@ def brute_force(net, objs):
     best_all, best_opf = [None] * k, [None] * k
     worst_all, worst_opf = [0] * k, [0] * k
     ntrees = nopf = 0
+    specs = [(kd, frac(fa).numerator, frac(fa).denominator) for kd, fa in objs]
     for t in gen.all_trees(range(n)):
-        _, cs, outer = pr.price(t, objs)
+        _, cs, outer = pr._price(t, specs)
         ntrees += 1
         for q in range(k):
             c = cs[q]
@@ -369,7 +389,7 @@ class _TableSpy:
                 c = frame.f_locals.get("contractions")
                 if isinstance(c, list):
                     self.tables = [
-                        sorted((int(k), [list(map(int, kv)) for kv in v[0]], int(v[1]))
+                        sorted((int(k), [list(map(int, kv)) for kv in v[0]], Fraction(v[1]))
                                for k, v in d.items()) for d in c]
         sys.setprofile(prof)
         return self
@@ -404,11 +424,18 @@ def check_stepcost(ctx, drv, rng):
         ctx.count("stepcost:probe-unavailable")
         return
     ctx.count("stepcost:" + kind)
-    if score != int(score):
-        ctx.count("stepcost:non-integral")
+    den = den_of(kind, factor)
+    if den != 1:
+        ctx.count("stepcost:fractional-factor")
+    # the model's scores are scaled by den: operands' scores go in scaled, the result is compared scaled
+    scaled = Fraction(score) * den
+    if scaled.denominator != 1:
+        ctx.corr_broken("compute_con_cost_%s with factor %s is not a multiple of 1/%d" % (kind, factor, den),
+                        {"temp": temp, "score": score})
         return
-    resp = drv.call("c09.concost", net=net, obj=obj_json(kind, factor), temp=temp, iscore=a, jscore=b)
-    real = {"legs": [list(kv) for kv in legs], "score": int(score)}
+    resp = drv.call("c09.concost", net=net, obj=obj_json(kind, factor), temp=temp, iscore=a * den,
+                    jscore=b * den)
+    real = {"legs": [list(kv) for kv in legs], "score": int(scaled)}
     ctx.traces += 1
     if resp.get("legs") != real["legs"] or resp.get("score") != real["score"]:
         ctx.corr_broken("compute_con_cost_%s differs from DP.conCost" % kind,
@@ -418,8 +445,9 @@ def check_stepcost(ctx, drv, rng):
 
 def configs_for(rng, tier):
     objs = list(BASE_OBJS)
-    objs.append(("combo", rng.choice(FACTORS)))
-    objs.append(("limit", rng.choice(FACTORS)))
+    fractional = [f for f in FACTORS if isinstance(f, str) and not f.endswith(".0")]
+    objs.append(("combo", rng.choice(fractional if rng.random() < 0.6 else FACTORS)))
+    objs.append(("limit", rng.choice(fractional if rng.random() < 0.6 else FACTORS)))
     caps = [1, 2, 17, 10 ** 6, rng.randint(3, 5000)]
     return objs, caps
 
@@ -450,7 +478,10 @@ def oracle(net, kind, factor, outer, cap, bf_best, via="function"):
     return True, {"tree": tree, "cost": cost, "has_outer": has_outer}
 
 
-def check_net(ctx, drv, net, rng, spy_tables=False):
+WIDE_CAPS = [1, 2, 3, 5, 6, 7, 11, 13, 17, 23, 100, 1000]
+
+
+def check_net(ctx, drv, net, rng, spy_tables=False, light=False):
     n = len(net.inputs)
     objs, caps = configs_for(rng, ctx.tier)
     bf = brute_force(net, objs)
@@ -461,12 +492,14 @@ def check_net(ctx, drv, net, rng, spy_tables=False):
     ctx.count("trees_outer_product_free", bf["nopf"])
     netj = net.json()
     for q, (kind, factor) in enumerate(objs):
-        for outer in (False, True):
+        for outer in ((rng.random() < 0.5,) if light else (False, True)):
             best = bf["all"][q] if outer else bf["opf"][q]
             worst = bf["worst_all"][q] if outer else bf["worst_opf"][q]
             if outer is False and bf["all"][q] < bf["opf"][q]:
                 ctx.count("outer_product_strictly_better")
-            for cap in caps:
+            den = den_of(kind, factor)
+            # light mode: many networks, two caps per objective from a wide set (sieve-window alignment)
+            for cap in (rng.sample(WIDE_CAPS, 2) if light else caps):
                 if ctx.time_left() < 5 or ctx.violations >= 1:
                     return
                 via = rng.choice(["function", "function", "class", "linear"])
@@ -479,21 +512,23 @@ def check_net(ctx, drv, net, rng, spy_tables=False):
                     report(ctx, case, info)
                     continue
                 # --- correspondence with the Lean model -----------------------------------
-                resp = drv.call("c09.dp", net=netj, obj=obj_json(kind, factor), outer=outer, cap=cap)
+                resp = drv.call("c09.dp", net=netj, obj=obj_json(kind, factor), outer=outer, cap=cap * den)
                 ctx.traces += 1
                 if resp.get("result") != "ok":
                     ctx.corr_broken("model DP gives no result: %r" % (resp,), case)
                     continue
                 rounds = 0
-                c = cap
+                c = cap * den
                 while c < resp["cap_end"]:
                     c *= 2
                     rounds += 1
                 ctx.count("rounds:%s" % (rounds if rounds < 8 else "8+"))
                 if resp["score"] != info["cost"]:
-                    ctx.corr_broken("model DP optimum %d != cost of the real path %d"
-                                    % (resp["score"], info["cost"]), case)
+                    ctx.corr_broken("model DP optimum %s (scaled by %d) != cost of the real path %s"
+                                    % (resp["score"], den, info["cost"]), case)
                     continue
+                if den != 1:
+                    ctx.count("fractional_factor_cases")
                 # the model's own pricing of the real tree and of its own tree
                 tc = drv.call("c09.treecost", net=netj, tree=info["tree"], objs=[obj_json(kind, factor)])
                 if tc.get("costs") != [info["cost"]] or tc.get("outer") != info["has_outer"]:
@@ -510,11 +545,12 @@ def check_net(ctx, drv, net, rng, spy_tables=False):
         try:
             with _TableSpy() as spy:
                 real_optimal(net, kind, factor, outer, cap)
-            resp = drv.call("c09.dp", net=netj, obj=obj_json(kind, factor), outer=outer, cap=cap,
-                            tables=True)
+            resp = drv.call("c09.dp", net=netj, obj=obj_json(kind, factor), outer=outer,
+                            cap=cap * den_of(kind, factor), tables=True)
             if spy.tables is not None and "tables" in resp:
                 mt = [sorted((e["key"], e["legs"], e["score"]) for e in t) for t in resp["tables"]]
-                rt = [[(k, l, s) for k, l, s in t] for t in spy.tables]
+                dd = den_of(kind, factor)
+                rt = [[(k, l, s * dd) for k, l, s in t] for t in spy.tables]
                 mt = [[(k, l, s) for k, l, s in t] for t in mt]
                 ctx.count("tables:equal" if mt == rt else "tables:differ")
                 ctx.count("table_entries_compared", sum(len(t) for t in rt))
@@ -625,17 +661,28 @@ def run(ctx, drv):
     quick = ctx.tier == "quick"
     for _ in range(1200 if quick else 12000):
         check_stepcost(ctx, drv, rng)
-    plan = ([(3, 3)] * 8 + [(4, 4)] * 25 + [(5, 5)] * 37 + [(6, 6)] * 40 + [(7, 7)] * 24 + [(8, 8)] * 2) if quick else \
-        ([(3, 3)] * 50 + [(4, 4)] * 250 + [(5, 5)] * 400 + [(6, 6)] * 500 + [(7, 7)] * 300 + [(8, 8)] * 30 + [(9, 9)] * 2)
+    # full configurations (6 + 2 objectives x both search_outer x 5 caps) on a few networks ...
+    plan = ([(3, 3, False)] * 4 + [(4, 4, False)] * 10 + [(5, 5, False)] * 14 + [(6, 6, False)] * 16 +
+            [(7, 7, False)] * 6 + [(8, 8, False)] * 1) if quick else \
+        ([(3, 3, False)] * 50 + [(4, 4, False)] * 250 + [(5, 5, False)] * 400 + [(6, 6, False)] * 500 +
+         [(7, 7, False)] * 300 + [(8, 8, False)] * 30 + [(9, 9, False)] * 2)
+    # ... and light configurations (every objective, one search_outer, two caps from a wide set) on many
+    # networks with dimensions 2..9 (ties between trees are rare, balanced optima common)
+    plan += ([(4, 4, True)] * 40 + [(5, 5, True)] * 120 + [(6, 6, True)] * 170 + [(7, 7, True)] * 8) if quick \
+        else ([(4, 4, True)] * 400 + [(5, 5, True)] * 1500 + [(6, 6, True)] * 2500 + [(7, 7, True)] * 300)
     rng.shuffle(plan)
-    for k, (lo, hi) in enumerate(plan):
+    for k, (lo, hi, light) in enumerate(plan):
         if ctx.time_left() < 20:
             ctx.count("plan_cut_short")
             break
         if ctx.violations >= 1:
             break
-        net = rand_guarded_net(rng, lo, hi)
-        check_net(ctx, drv, net, rng, spy_tables=(k % 3 == 0))
+        if light:
+            net = rand_guarded_net(rng, lo, hi, dims=(2, 3, 4, 5, 6, 7, 8, 9))
+            ctx.count("light_networks")
+        else:
+            net = rand_guarded_net(rng, lo, hi)
+        check_net(ctx, drv, net, rng, spy_tables=(k % 7 == 0), light=light)
     ctx.notes["guard"] = "every generated network satisfies guard_ok (generator rejects others)"
 
 
